@@ -133,7 +133,10 @@ Fixpoint no_adjacent_dup (l : list fp) : bool :=
 Inductive item :=
 | IOp (o : fop)
 | ICb (read : fp)
-| IQuiet.
+| IQuiet
+| IRec.   (* the loop certainly ran reconcile() between the previous file operation and this point: it took a
+             notification for the config path and then a second one (so the first was handled completely), or
+             a reconcile tick was due and the loop then served 20 select rounds.  No file operation in between. *)
 
 (* holds_C38: the property, on the observable trace.
    state of the fold: current file, content the callback last ran for, "callback already ran since the
@@ -149,6 +152,7 @@ Fixpoint holds_from (f ld : fp) (ran : bool) (l : list item) : bool :=
       && holds_from f rd true r
   | IQuiet :: r => fp_eqb ld f     (* once the content stays unchanged the callback has run for it *)
                    && holds_from f ld ran r
+  | IRec :: r => holds_from f ld ran r
   end.
 
 Definition holds_C38 (f0 : fp) (l : list item) : bool := holds_from f0 f0 false l.
@@ -193,6 +197,8 @@ Definition after_item (expire : st -> st * list out) (l : list st) (i : item) : 
                                           | (s', [Callback _ r]) => if fp_eqb r rd then [s'] else []
                                           | _ => [] end) cl) []
   | IQuiet => filter settled cl
+  | IRec => add_all (map reconcile cl) []     (* reconcile is idempotent while the file is unchanged, so forcing it
+                                                 here is the same as forcing it anywhere since the last IOp *)
   end.
 
 Definition explains (expire : st -> st * list out) (f0 : fp) (l : list item) : bool :=
@@ -207,6 +213,7 @@ Fixpoint trigger_from (f : fp) (changes : nat) (l : list item) : bool :=
                   else match changes with O => trigger_from f' 1 r | _ => true end
   | ICb _ :: r => trigger_from f changes r
   | IQuiet :: r => trigger_from f 0 r
+  | IRec :: r => trigger_from f changes r
   end.
 Definition trigger (f0 : fp) (l : list item) : bool := trigger_from f0 0 l.
 
